@@ -266,6 +266,23 @@ Proof.
   change (v_lens t0 (nth k arms []) = nth k (map (v_lens t0) arms) (v_lens t0 [])). now rewrite map_nth.
 Qed.
 
+(* ------------------------------------------------------------------ after the statement *)
+Lemma mem_in : forall x l, mem x l = true <-> In x l.
+Proof.
+  intros x l. unfold mem. rewrite existsb_exists. split.
+  - intros (y & Hy & E). apply Z.eqb_eq in E. now subst y.
+  - intros H. exists x. split; [exact H|apply Z.eqb_refl].
+Qed.
+
+Theorem after_arms_forgets : forall t arms x, In x (arms_writes arms) -> t_cur (after_arms t arms) x = None.
+Proof. intros t arms x H. unfold after_arms. rewrite t_cur_untrack. apply mem_in in H. now rewrite H. Qed.
+
+Theorem after_arms_keeps : forall t arms x, ~ In x (arms_writes arms) -> t_cur (after_arms t arms) x = t_cur t x.
+Proof.
+  intros t arms x H. unfold after_arms. rewrite t_cur_untrack. destruct (mem x (arms_writes arms)) eqn:E; auto.
+  apply mem_in in E. contradiction.
+Qed.
+
 (* ------------------------------------------------------------------ witnesses *)
 Lemma arms_demo_lens : arm_lens arms_pre arms_demo = [[None; None; None; Some 4]; [None]; [Some 3; Some 2]]%nat.
 Proof. vm_compute. reflexivity. Qed.
